@@ -329,6 +329,11 @@ func (a *harnessAcc) merge(r *interp.ExploreResult) {
 		c.Reached += v.Reached
 		c.Witness += v.Witness
 	}
+	for _, o := range r.Stats.Observes {
+		if len(s.Observes) < 40 {
+			s.Observes = append(s.Observes, o)
+		}
+	}
 	for _, sm := range r.Stats.Samples {
 		if len(s.Samples) < 4 {
 			s.Samples = append(s.Samples, sm)
